@@ -76,12 +76,12 @@ ASSUMPTIONS = [
     "diagnostics produced after check() returns (ClassAttributeChecker) are not observable through harness.run except on the CLI route",
 ]
 FLOORS = {
-    "quick": {"distinct_nontrivial": 9000, "programs": 140, "disable_cases": 6000, "comment_cases": 15000,
-              "comment_cases_target_has_diag": 4000, "comment_suppressed_something": 3000, "eof_own_line_cases": 250,
-              "file_level_bare_cases": 140, "fresh_checker_configs": 150, "cli_runs": 16},
-    "thorough": {"distinct_nontrivial": 90000, "programs": 1400, "disable_cases": 60000, "comment_cases": 150000,
-                 "comment_cases_target_has_diag": 40000, "comment_suppressed_something": 30000,
-                 "eof_own_line_cases": 2500, "file_level_bare_cases": 1400, "fresh_checker_configs": 1500, "cli_runs": 48},
+    "quick": {"distinct_nontrivial": 18000, "programs": 150, "disable_cases": 12000, "disable_cases_nontrivial": 11000,
+              "comment_cases": 19000, "comment_cases_target_has_diag": 3500, "comment_suppressed_something": 4000,
+              "eof_own_line_cases": 450, "file_level_bare_cases": 150, "fresh_checker_configs": 500, "cli_runs": 24},
+    "thorough": {"distinct_nontrivial": 95000, "programs": 800, "disable_cases": 65000, "disable_cases_nontrivial": 60000,
+                 "comment_cases": 100000, "comment_cases_target_has_diag": 19000, "comment_suppressed_something": 21000,
+                 "eof_own_line_cases": 2400, "file_level_bare_cases": 800, "fresh_checker_configs": 4500, "cli_runs": 70},
 }
 LEVEL_TEXT = (
     "held-on-explored: every (program, S, route) and every admissible comment placement of the generated programs was "
@@ -90,7 +90,7 @@ LEVEL_TEXT = (
     "diagnostics of the ClassAttributeChecker)"
 )
 NSHARDS = 16
-WATCHDOG_S = {"quick": 900, "thorough": 7200}
+WATCHDOG_S = {"quick": 3600, "thorough": 14400}   # safety net only (never a verdict); generous because sibling checks share the machine
 
 IGNORE = "# static analysis: ignore"
 SPECIAL = ("unused_ignore", "bare_ignore")
@@ -98,7 +98,6 @@ ALL_CODES = sorted(c.name for c in ErrorCode)
 BASE_ENABLED = {c.name: (c not in DISABLED_IN_TESTS) for c in ErrorCode}
 BASE_ENABLED["unused_ignore"] = True
 BASE_ENABLED["bare_ignore"] = True
-_MOD_RE = re.compile(r"vpc11[A-Za-z0-9_]*(?:\.[A-Za-z0-9_]+)*")
 
 # ---------------------------------------------------------------------------
 # running pyanalyze
@@ -146,7 +145,7 @@ def run_diags(source: str, kw: dict, modname: str = "vpc11.plain.m") -> Counter:
         raise Undecided(f"check raised {r.exception!r}")
     out: Counter = Counter()
     for d in r.diags:
-        out[(d.code, d.lineno, d.col, _MOD_RE.sub("<M>", d.description))] += 1
+        out[(d.code, d.lineno, d.col, d.description.replace(modname, "<M>"))] += 1
     return out
 
 
@@ -289,7 +288,7 @@ def cli_diags(source: str, args) -> Counter:
         with open(out) as f:
             for fl in json.load(f):
                 desc = str(fl.get("description", "")).replace(stem, "<M>")
-                res[(str(fl.get("code")), fl.get("lineno"), fl.get("col_offset"), _MOD_RE.sub("<M>", desc))] += 1
+                res[(str(fl.get("code")), fl.get("lineno"), fl.get("col_offset"), desc)] += 1
     return res
 
 
@@ -570,7 +569,8 @@ def subsets_of(codes, rng):
 
 
 class _Shared:
-    """Checkers shared inside one shard, keyed by configuration; recycled to bound memory."""
+    """Checkers shared inside one shard, keyed by configuration (baselines + one per singleton S and route, i.e. at most
+    ~2 x |codes| + 2 live Checkers of ~10 MB each); recycled every 40 programs."""
 
     def __init__(self):
         self.cache: dict = {}
@@ -728,7 +728,7 @@ def shard(ctx) -> None:
                 cli_left -= 1
                 base_cli = cli_diags(source, [])
                 ctx.count("cli_runs")
-                ctx.histo("baseline_vs_settings", "cli:" + ("equal" if base_cli == base else "differs(expected: CLI adds attribute/final checks)"))
+                ctx.histo("baseline_vs_settings", "cli:" + ("equal" if base_cli == base else "differs"))
                 S = rng.choice([S for S in subsets if 0 < len(S) < len(codes)] or subsets)
                 got = cli_diags(source, [a for c in S for a in ("-d", c)])
                 ctx.count("cli_runs")
